@@ -195,6 +195,10 @@ def header_value_variants():
 TYPE_CODES = b'ybnqiuxtdsoghva(){}er'
 
 
+UTF8_SPLICES = [b'\xc3\xa9', b'\xc0\x80', b'\xc1\xbf', b'\xc2\x41', b'\xe0\x80\x80', b'\xe0\x9f\xbf', b'\xed\xa0\x80', b'\xed\x9f\xbf',
+                b'\xef\xbf\xbe', b'\xf0\x80\x80\x80', b'\xf0\x8f\xbf\xbf', b'\xf4\x8f\xbf\xbf', b'\xf4\x90\x80\x80', b'\xf8\x88\x80\x80']
+
+
 def byte_replacements(orig, rich=False):
     s = {0x00, 0x01, (orig + 1) & 0xff, (orig - 1) & 0xff, orig ^ 0x80, 0x7f, 0xff}
     if rich:
@@ -212,6 +216,12 @@ def single_site_corruptions(data: bytes, rich=False):
     for off in range(n):
         for v in byte_replacements(data[off], rich):
             yield ('byte@%d=%02x' % (off, v), data[:off] + bytes([v]) + data[off + 1:])
+    # multi-byte splices: one representative of every UTF-8 sequence class written over 2..4 bytes at every offset
+    # (a single replaced byte cannot produce an overlong form, a surrogate or a code point above U+10FFFF)
+    for off in range(16, n - 1):
+        for seq in UTF8_SPLICES:
+            if off + len(seq) <= n and data[off:off + len(seq)] != seq:
+                yield ('utf8@%d=%s' % (off, seq.hex()), data[:off] + seq + data[off + len(seq):])
     # length words: every 4-aligned offset is treated as a potential length word
     e = '<' if data[:1] == b'l' else '>'
     for off in range(4, n - 3, 4):
